@@ -132,28 +132,49 @@ def run(ctx):
       stats['sessions_model'] += len(sessions)
       ctx.log('  Grid%s: TLC %d states, %d complete sessions (all batch sequences x restart positions); each-point-once / covers / repeats hold' % (
           dims, res.distinct, len(sessions)))
+      # The ORDER in which the grid is visited is the designer's business (Grid.tla states today's mixed-radix order, the
+      # property does not): what is judged is (a) the first |grid| suggestions of the live designer are valid, pairwise
+      # distinct and cover the grid, (b) a session with restarts equals the live session with the same batch sizes.
+      g = 1
+      for n in dims:
+        g *= n
+      live_cache = {}
+
+      def live_of(steps):
+        key = tuple(n for n in steps if n != 0)
+        if key not in live_cache:
+          live_cache[key] = run_direct(dims, list(key))
+        return live_cache[key]
       for s in sessions:
+        live = live_of(s['steps'])
         got = run_direct(dims, s['steps'])
         stats['direct_replays'] += 1
-        if got != s['out'][:len(got)] or len(got) < len(s['out']) - 3:
-          ctx.violation({'via': 'grid', 'hosting': 'direct', 'verdict': 'restart_diverges' if 0 in s['steps'] else 'wrong_point'},
-                        {'kind': 'grid', 'dims': dims, 'steps': s['steps'], 'expected': s['out'], 'observed': got})
+        first = [tuple(p) for p in live[:g]]
+        valid = all(0 <= c < n for p in first for c, n in zip(p, dims))
+        if not valid or len(live) != len(s['out']):
+          ctx.violation({'via': 'grid', 'hosting': 'direct', 'verdict': 'wrong_point'},
+                        {'kind': 'grid', 'dims': dims, 'steps': s['steps'], 'observed': live, 'note': 'a suggestion is not a grid point, or the count is wrong'})
+        elif len(live) >= g and len(set(first)) != g:
+          ctx.violation({'via': 'grid', 'hosting': 'direct', 'verdict': 'repeats_before_covering'},
+                        {'kind': 'grid', 'dims': dims, 'steps': s['steps'], 'observed': live})
+        elif got != live:
+          ctx.violation({'via': 'grid', 'hosting': 'direct', 'verdict': 'restart_diverges'},
+                        {'kind': 'grid', 'dims': dims, 'steps': s['steps'], 'live': live, 'restarted': got})
       sample = rng.sample(sessions, min(len(sessions), 25 if not ctx.thorough else 120))
       for s in sample:
         got, err = run_service(dims, s['steps'], d)
         stats['service_replays'] += 1
-        # the service hands the suggestions of one batch out in its own order: compare batch by batch as multisets
-        if err or batches(got, s['steps']) != batches(s['out'][:len(got)], s['steps']) or len(got) < len(s['out']) - 3:
+        live = live_of(s['steps'])
+        # the service hands the suggestions of one batch out in its own order: compare batch by batch as multisets, with the
+        # live designer that never stopped
+        if err or batches(got, s['steps']) != batches(live[:len(got)], s['steps']) or len(got) < len(live) - 3:
           ctx.violation({'via': 'grid', 'hosting': 'service', 'verdict': 'error' if err else ('restart_diverges' if 0 in s['steps'] else 'wrong_point')},
-                        {'kind': 'grid', 'dims': dims, 'steps': s['steps'], 'expected': s['out'], 'observed': got, 'error': err})
+                        {'kind': 'grid', 'dims': dims, 'steps': s['steps'], 'live_designer': live, 'observed': got, 'error': err})
       # shuffled grid in the service: the shuffle seed is drawn per policy creation; only load() makes it stable.
       # The first |grid| suggestions must still be pairwise distinct and cover the grid.
       for s in sample[:8]:
         got, err = run_service(dims, s['steps'], d, algorithm='SHUFFLED_GRID_SEARCH')
         stats['shuffled_service_sessions'] += 1
-        g = 1
-        for n in dims:
-          g *= n
         if err or not balanced(got, s['steps'], g):
           ctx.violation({'via': 'grid', 'hosting': 'service-shuffled', 'verdict': 'error' if err else 'repeats_before_covering'},
                         {'kind': 'grid', 'dims': dims, 'steps': s['steps'], 'observed': got, 'error': err})
